@@ -128,7 +128,9 @@ func (s *Session) OnEvent(event Event) {
 						default:
 						}
 					}
-					s.pools.Store(host.Key(), pool)
+					if pool != nil { // No pool is returned for critical errors (e.g. the keyspace doesn't exist)
+						s.pools.Store(host.Key(), pool)
+					}
 					wg.Done()
 				}(host)
 			}
